@@ -192,6 +192,7 @@ class CallPeptideFusion(CallPeptideMain):
     itself, and only the Sec sites before the breakpoint are kept; calls, merging of the ORF-search result and returned graphs as for the
     transcript itself, without Sec termination"""
     qualname = 'call_peptide_fusion'
+    props = ('C04', 'C05', 'C07', 'C15')      # C15: the fused product is built from the donor up to the breakpoint with the variants in front of it
 
     def setup(self, I):
         st = super().setup(I)
